@@ -102,13 +102,18 @@ fn run_history(schema: &Schema, codec: Codec, block_size: usize, marker: [u8; 16
     for op in ops {
         let Some((t, p)) = op.tagged() else { return bad("op") };
         match t {
-            "append" | "append-unvalidated" => {
+            "append" | "append-unvalidated" | "append-owned" | "append-unvalidated-owned" => {
                 let v = match sexp_to_value(&p[0]) {
                     Ok(v) => v,
                     Err(e) => return bad(&e),
                 };
                 let Some(w) = writer.as_mut() else { results.push(Sexp::tag("no-writer", vec![])); continue };
-                let r = if t == "append" { w.append_value_ref(&v) } else { w.unvalidated_append_value_ref(&v) };
+                let r = match t {
+                    "append" => w.append_value_ref(&v),
+                    "append-owned" => w.append_value(v.clone()),
+                    "append-unvalidated-owned" => w.unvalidated_append_value(v.clone()),
+                    _ => w.unvalidated_append_value_ref(&v),
+                };
                 results.push(match r {
                     Ok(_) => ok(vec![value_to_sexp(&v)]),
                     Err(_) => Sexp::tag("err", vec![value_to_sexp(&v)]),
@@ -144,8 +149,36 @@ fn run_history(schema: &Schema, codec: Codec, block_size: usize, marker: [u8; 16
                     Err(_) => err(),
                 });
             }
-            "extend" => {
-                // (extend V...) : Writer::extend_from_slice (validates each value, then flushes)
+            "extend-ser" => {
+                // (extend-ser (a #s n|) ...) : Writer::extend_ser of structs matching schema P
+                let Some(w) = writer.as_mut() else { results.push(Sexp::tag("no-writer", vec![])); continue };
+                let mut structs = Vec::new();
+                let mut shown = Vec::new();
+                for x in p {
+                    let Some((_, q)) = x.tagged() else { return bad("extend-ser item") };
+                    let a = q.first().and_then(|y| y.as_i64()).unwrap_or(0);
+                    let st = q.get(1).and_then(|y| y.as_str_utf8()).unwrap_or_default();
+                    let n = q.get(2).and_then(|y| y.as_i64());
+                    shown.push(value_to_sexp(&apache_avro::types::Value::Record(vec![
+                        ("a".into(), apache_avro::types::Value::Long(a)),
+                        ("s".into(), apache_avro::types::Value::String(st.clone())),
+                        (
+                            "n".into(),
+                            match n {
+                                Some(k) => apache_avro::types::Value::Union(1, Box::new(apache_avro::types::Value::Long(k))),
+                                None => apache_avro::types::Value::Union(0, Box::new(apache_avro::types::Value::Null)),
+                            },
+                        ),
+                    ])));
+                    structs.push(SerP { a, s: st, n });
+                }
+                results.push(match w.extend_ser(structs) {
+                    Ok(_) => ok(shown),
+                    Err(_) => Sexp::tag("err", shown),
+                });
+            }
+            "extend" | "extend-iter" => {
+                // (extend V...) : Writer::extend_from_slice / Writer::extend (validate each value, then flush)
                 let Some(w) = writer.as_mut() else { results.push(Sexp::tag("no-writer", vec![])); continue };
                 let mut vs = Vec::new();
                 for x in p {
@@ -155,7 +188,8 @@ fn run_history(schema: &Schema, codec: Codec, block_size: usize, marker: [u8; 16
                     }
                 }
                 let shown: Vec<Sexp> = vs.iter().map(value_to_sexp).collect();
-                results.push(match w.extend_from_slice(&vs) {
+                let r = if t == "extend" { w.extend_from_slice(&vs) } else { w.extend(vs.clone()) };
+                results.push(match r {
                     Ok(_) => ok(shown),
                     Err(_) => Sexp::tag("err", shown),
                 });
@@ -264,6 +298,27 @@ pub fn cread(a: &[Sexp]) -> Sexp {
                 break;
             }
         }
-        Sexp::tag("obs", vec![ok(vec![schema, meta]), Sexp::tag("items", items)])
+        // the same file through the deserializing iterator (Reader::into_deser_iter, block.rs read_next_deser):
+        // how many items it delivers before the first error, how it ends, and whether anything follows an error
+        let deser = match Reader::new(&file[..]) {
+            Err(_) => Sexp::tag("open-err", vec![]),
+            Ok(r) => {
+                let (mut good, mut late, mut end, mut m) = (0u64, 0u64, "clean", 0usize);
+                for it in r.into_deser_iter::<crate::universal::Universal>() {
+                    match it {
+                        Ok(_) if end == "clean" => good += 1,
+                        Ok(_) => late += 1,
+                        Err(_) => end = "err",
+                    }
+                    m += 1;
+                    if m > 50_000 {
+                        end = "runaway";
+                        break;
+                    }
+                }
+                Sexp::tag("deser", vec![Sexp::num(good), Sexp::Sym(end.into()), Sexp::num(late)])
+            }
+        };
+        Sexp::tag("obs", vec![ok(vec![schema, meta]), Sexp::tag("items", items), deser])
     })
 }
